@@ -69,11 +69,28 @@ impl DnV {
 	/// None when rcgen's own constructor refuses the value (the case is then unconstructible)
 	pub fn real(&self) -> Option<DnValue> {
 		Some(match self {
-			DnV::Bmp(b) => DnValue::BmpString(BmpString::from_utf16be(b.clone()).ok()?),
+			// a value that is text is built from text (the way callers do), any other byte string
+			// through the byte-level constructor; the two must agree, which C13 checks
+			DnV::Bmp(b) => {
+				let units: Vec<u16> = b.chunks(2).filter(|c| c.len() == 2).map(|c| u16::from_be_bytes([c[0], c[1]])).collect();
+				match (b.len() % 2 == 0, String::from_utf16(&units)) {
+					(true, Ok(text)) => match BmpString::try_from(text.as_str()) {
+						Ok(v) if v.as_bytes() == &b[..] => DnValue::BmpString(v),
+						_ => DnValue::BmpString(BmpString::from_utf16be(b.clone()).ok()?),
+					},
+					_ => DnValue::BmpString(BmpString::from_utf16be(b.clone()).ok()?),
+				}
+			},
 			DnV::Ia5(s) => DnValue::Ia5String(Ia5String::try_from(s.clone()).ok()?),
 			DnV::Printable(s) => DnValue::PrintableString(PrintableString::try_from(s.clone()).ok()?),
 			DnV::Teletex(s) => DnValue::TeletexString(TeletexString::try_from(s.clone()).ok()?),
-			DnV::Universal(b) => DnValue::UniversalString(UniversalString::from_utf32be(b.clone()).ok()?),
+			DnV::Universal(b) => {
+				let text: Option<String> = if b.len() % 4 == 0 { b.chunks(4).map(|c| char::from_u32(u32::from_be_bytes([c[0], c[1], c[2], c[3]]))).collect() } else { None };
+				match text.map(|t| UniversalString::try_from(t.as_str())) {
+					Some(Ok(v)) if v.as_bytes() == &b[..] => DnValue::UniversalString(v),
+					_ => DnValue::UniversalString(UniversalString::from_utf32be(b.clone()).ok()?),
+				}
+			},
 			DnV::Utf8(s) => DnValue::Utf8String(s.clone()),
 		})
 	}
